@@ -47,7 +47,8 @@ def harnesses(tier):
         for v in ('A', 'B', 'C'):
             hs.append(SL.H(f'c06.S.restart_{v}', SL.c06_restart(v, {'tk': (200, 900)}, restart_delays=(0, 300, 2500, 5600)), twin=tw if v == 'B' else None,
                            bounds=B(v, {'tk': (200, 900)}, rds=(0, 300, 2500, 5600)), budget=3000))
-        hs.append(SL.H('c06.S.restart_B.delay', SL.c06_restart('B', {'rd': (0, 6000)}, {'tk': 450}), bounds=B('B', {'rd': (0, 6000)}, {'tk': 450}), budget=3000))
+        hs.append(SL.H('c06.S.restart_B.delay_short', SL.c06_restart('B', {'rd': (0, 1000)}, {'tk': 450}), bounds=B('B', {'rd': (0, 1000)}, {'tk': 450}), budget=3000))
+        hs.append(SL.H('c06.S.restart_B.delay_long', SL.c06_restart('B', {'rd': (4800, 5800)}, {'tk': 450}), bounds=B('B', {'rd': (4800, 5800)}, {'tk': 450}), budget=3000))
         hs.append(SL.H('c06.S.restart_B.slow', SL.c06_restart('B', {'tk': (300, 600)}, {'pB': 250}, restart_delays=(0, 5600)), bounds={**B('B', {'tk': (300, 600)}), 'pB': 250}, budget=3000))
     return hs
 
